@@ -599,6 +599,11 @@ def worker(kind, *args):
 # ====================================================================== entry points
 def replay(spec):
     if spec.get("part") == "B" or "conns" in spec:
+        from vlib import store
+        try:
+            store.standard_template()
+        except Exception:
+            return []       # no working server under this library: nothing can be reproduced
         return B.run_history(spec)[0]
     return judge_a(spec)[0]
 
